@@ -30,6 +30,9 @@ pub struct Case13 {
     /// the reader re-enters: at its first open a complete rewrite runs on another instance
     #[serde(default)]
     pub reenter: bool,
+    /// environment fault: the process's working directory has been removed when the call is made
+    #[serde(default)]
+    pub cwd_gone: bool,
 }
 
 #[derive(Serialize, Deserialize, Clone, Debug)]
@@ -521,6 +524,14 @@ pub fn gen_case(rng: &mut Rng, tier: Tier, for_sweep: bool) -> Case13 {
             source.push_str(&format!("\n//# sourceMappingURL={}\n", url));
             ref_kind = "inline-odd-url".into();
         }
+        5 if rng.chance(1, 6) => {
+            // a really big file at size thresholds (1, 4, 16, 17 MiB): anything that caps, buffers or budgets
+            let n = *rng.pick(&[(1usize << 20) + 1, (4 << 20) + 1, (16 << 20) - 1, (16 << 20) + 1, 17 << 20]);
+            fs.nodes.insert("big.map".into(), FsNode::BigBody(n));
+            fs.nodes.insert(join(&dir, "big.map"), FsNode::BigBody(n));
+            source.push_str("\n//# sourceMappingURL=big.map\n");
+            ref_kind = "external-big-body".into();
+        }
         5 => {
             fs.nodes.insert("big.map".into(), FsNode::HugeMap(if tier == Tier::Thorough { rng.range(1000, 200_000) } else { rng.range(1000, 20_000) }));
             fs.nodes.insert(join(&dir, "big.map"), FsNode::HugeMap(if tier == Tier::Thorough { rng.range(1000, 200_000) } else { rng.range(1000, 20_000) }));
@@ -653,6 +664,7 @@ pub fn gen_case(rng: &mut Rng, tier: Tier, for_sweep: bool) -> Case13 {
         tags: vec![format!("src:{skind}"), format!("file:{fshape}"), format!("ref:{ref_kind}"), format!("map:{map_class}"), format!("cfg:{cfg_kind}")],
         log_level: (*rng.pick(&["off", "off", "off", "error", "debug", "debug", "trace"])).to_string(),
         reenter: !for_sweep && rng.chance(1, 10),
+        cwd_gone: !for_sweep && rng.chance(1, 10),
     }
 }
 
@@ -774,6 +786,13 @@ fn run_case(c: &Case13) -> CaseResult {
         "trace" => log::LevelFilter::Trace,
         _ => log::LevelFilter::Off,
     });
+    let saved_cwd = std::env::current_dir().ok();
+    if c.cwd_gone {
+        let d = std::env::temp_dir().join(format!("simrw-gone-{}", std::process::id()));
+        if std::fs::create_dir_all(&d).is_ok() && std::env::set_current_dir(&d).is_ok() {
+            let _ = std::fs::remove_dir(&d);
+        }
+    }
     let res = if c.reenter {
         // the host's reader calls back into the rewriter (another instance) before it answers
         let inner_cfg = exec::make_config(&exec::tracer_like_cfg(Some("inner"), true, true, "DEBUG", true), 7).ok();
@@ -803,6 +822,11 @@ fn run_case(c: &Case13) -> CaseResult {
         exec::call(&cfg, &c.source, &c.file, &c.fs, &c.faults)
     };
     log::set_max_level(log::LevelFilter::Off);
+    if c.cwd_gone {
+        if let Some(d) = &saved_cwd {
+            let _ = std::env::set_current_dir(d);
+        }
+    }
     match &res.outcome {
         Outcome::Panic { msg, loc } => {
             viol.push(Violation::new(
